@@ -115,7 +115,7 @@ def generate(run_seed, prop, tier="quick"):
     ops = []
     n_ops = rng.randint(2, 7)
     pool = ["roundtrip", "embed", "embed", "embed_cg", "embed_cg", "roundtrip_conf", "translate_forward", "reseed",
-            "foreign_rng", "forward", "repermute", "repermute", "reweight", "preset_positions", "map_copy", "bead_weights"]
+            "foreign_rng", "forward", "repermute", "repermute", "reweight", "preset_positions", "map_copy", "bead_weights", "embed_back"]
     for _ in range(n_ops):
         kind = rng.choice(pool)
         op = {"op": kind, "m": rng.randrange(len(sources))}
@@ -130,6 +130,9 @@ def generate(run_seed, prop, tier="quick"):
         if kind == "repermute":
             op.update({"permute": rng.choice(["reverse", "shuffle", "shuffle"]), "relabel": rng.choice(["none", "none", "shuffle", "offset", "negative"]),
                        "perm_seed": rng.randrange(2 ** 30), "beads": rng.random() < 0.5})
+        if kind == "embed_back":
+            op.update({"permute": rng.choice(["none", "reverse", "shuffle", "shuffle"]), "relabel": rng.choice(["none", "none", "shuffle", "offset"]),
+                       "perm_seed": rng.randrange(2 ** 30)})
         if kind == "reweight":
             op.update({"seed": rng.randrange(2 ** 30), "fraction": rng.choice([0.1, 0.3, 0.6]),
                        "scale": rng.choice([1.0, 1.0, 1e-10, 1e8]), "normalised": rng.random() < 0.3})
@@ -303,6 +306,10 @@ def _aromatised_signature(before, after, order_map):
     if all(frozenset(e) in ring_edges for e in changed):
         return "localised-ring-aromatised"
     return "chemistry-changed"
+
+
+class _Shadow:
+    """A graph judged by the embedding oracle that is not one of the history's molecules."""
 
 
 class _Mol:
@@ -528,6 +535,23 @@ def run_history(scenario):
                 event["out"] = "ok"
                 event["dig"] = sha(jdump([[round(float(x), 4) for x in aa.nodes[n]["position"]] for n in sorted(aa.nodes)]))
                 stats["embeds_ok"] = stats.get("embeds_ok", 0) + 1
+            elif kind == "embed_back":
+                # the graph that came back from RDKit (whatever the bridge left on its nodes), rebuilt in another
+                # node order, is embedded itself: its atoms must get their own coordinates like any other graph's
+                work = copy.deepcopy(aa)
+                for node in work.nodes:
+                    work.nodes[node].pop("position", None)
+                back = bridge.rdkit_to_networkx(bridge.networkx_to_rdkit(work))
+                again, _ = _permute(back, op["permute"], op["perm_seed"], op["relabel"])
+                calls0 = proxy.calls
+                bridge.embed_3d_via_rdkit(again)
+                shadow = _Shadow()
+                shadow.aa = again
+                shadow.table = proxy.last_atoms if proxy.calls > calls0 else None
+                check_positions(shadow, seq, proxy.calls > calls0)
+                event["out"] = "ok"
+                event["dig"] = sha(jdump([[round(float(x), 4) for x in again.nodes[n]["position"]] for n in sorted(again.nodes)]))
+                stats["embeds_of_returned_graph"] = stats.get("embeds_of_returned_graph", 0) + 1
             elif kind == "forward":
                 if not have_positions(mol):
                     event["out"] = "skipped"
@@ -670,8 +694,8 @@ def run_history(scenario):
                 stats["engine_refused_zero_order_bond"] = stats.get("engine_refused_zero_order_bond", 0) + 1
             else:
                 event["out"] = "exc:" + text
-                if kind in ("roundtrip", "roundtrip_conf", "embed", "embed_cg", "forward", "translate_forward"):
-                    oracle = {"roundtrip": "C18.roundtrip", "roundtrip_conf": "C18.roundtrip", "embed": "C18.embed",
+                if kind in ("roundtrip", "roundtrip_conf", "embed", "embed_cg", "embed_back", "forward", "translate_forward"):
+                    oracle = {"embed_back": "C18.embed", "roundtrip": "C18.roundtrip", "roundtrip_conf": "C18.roundtrip", "embed": "C18.embed",
                               "embed_cg": "C18.embed", "forward": "C18.forward-map", "translate_forward": "C18.forward-map"}[kind]
                     violate(oracle, "%s raised %s" % (kind, text), seq, "raised:" + type(exc).__name__)
         events.append(event)
